@@ -11,6 +11,9 @@ impl<K, V> BTreeMap<K, V> {
     /// `BTreeMap::new()`: the empty map
     #[verifier::external_body]
     pub fn new() -> (r: BTreeMap<K, V>) ensures r.view() == Map::<K, V>::empty() { unimplemented!() }
+    /// `BTreeMap::contains_key(&k)`
+    #[verifier::external_body]
+    pub fn contains_key(&self, k: &K) -> (r: bool) ensures r == self.view().dom().contains(*k) { unimplemented!() }
     /// `BTreeMap::get_mut(&k)`: the slot of `k` if present; whatever is written through it is the new value of `k`; nothing else changes
     #[verifier::external_body]
     pub fn get_mut<'a>(&'a mut self, k: &K) -> (r: Option<&'a mut V>)
@@ -57,3 +60,14 @@ pub fn vx_into_validated(extensions: Vec<ExpirationExtension2>) -> (r: Vec<Valid
         forall|d: int| 0 <= d < r@.len() ==> (#[trigger] r@[d]).deadline == extensions@[d].deadline && r@[d].partition == extensions@[d].partition
             && r@[d].new_expiration == extensions@[d].new_expiration,
 { unimplemented!() }
+
+// ---- fvm_ipld_bitfield::BitField::iter (prelude/bitfield.rs views a BitField as a finite set of u64) ---------------------------------
+impl BitField {
+    /// `bf.iter()`: the members of the bit field, each exactly once, in ascending order (the unit iterates the returned vector)
+    #[verifier::external_body]
+    pub fn iter(&self) -> (r: Vec<u64>)
+        ensures
+            forall|x: u64| #[trigger] r@.contains(x) <==> self@.contains(x),
+            forall|i: int, j: int| 0 <= i < j < r@.len() ==> r@[i] < r@[j],
+    { unimplemented!() }
+}
